@@ -295,9 +295,13 @@ class Run:
             return False
         return True
 
-    def _run_sharded(self, binary, lines, shards=16, timeout=3000, env=None):
+    def _run_sharded(self, binary, lines, shards=16, timeout=None, env=None):
         if not lines:
             return {}
+        if timeout is None:
+            # a shard of the quick tier normally ends within a minute or two: a change that makes the code READ a multi-GiB virtual box
+            # (or loop) must not hold the check for the better part of an hour; the cases of a killed shard come back as `missing`
+            timeout = 600 if getattr(self, "tier", "quick") == "quick" else 3000
         n = max(1, min(shards, len(lines) // 200 + 1))
         chunks = [lines[i::n] for i in range(n)]
         procs = []
